@@ -1602,6 +1602,7 @@ func (mgr *Manager) convertStreamJob(allConverters []*converters.CachedConverter
 					results <- result{job, err}
 					return
 				}
+				results <- result{job, fmt.Errorf("stream %d not found in any index", job.streamID)}
 			}()
 		}
 
